@@ -141,7 +141,8 @@ def run(job):
                 fd = FEMData(nodes=FEMAttribute('NODE', ids, xyz),
                              elements=FEMElementalAttribute(
                                  'ELEMENT', {c['type']: FEMAttribute(c['type'], np.array([1]), conn)}))
-                v = fd.calculate_element_volumes(raise_negative_volume=False,
+                v = fd.calculate_element_volumes(mode=job.get('mode', 'linear'),
+                                                 raise_negative_volume=False,
                                                  return_abs_volume=False)
                 vols.append(float(np.ravel(v)[0]).hex())
             except Exception as e:  # noqa
